@@ -144,14 +144,16 @@ func init() {
 		},
 	})
 	// floatJsonShape: FloatExp.appendJSON is
-	//     if <init>; <cond> { return <then> } ; return strconv.AppendFloat(...)
+	//     if <range> { if <init>; <cond> { return <then> } } ; return strconv.AppendFloat(...)
+	// (the range check is optional for the extractor, required by the Lean obligation)
 	// and MarshalJSON / EncodeJSON of FloatExp call it.  The statement texts are
 	// emitted verbatim so that any change of the guard or of the integer printer
 	// breaks the Lean obligation facts_float_json_shape.
 	addFact(fact{
 		name:   "floatJsonShape",
 		leanTy: "List String",
-		deflt: `["init i := int64(e.Value)", "cond float64(i) == e.Value", "then strconv.AppendInt(buf, i, 10)", ` +
+		deflt: `["range e.Value >= -9223372036854775808.0 && e.Value < 9223372036854775808.0", ` +
+			`"init i := int64(e.Value)", "cond float64(i) == e.Value", "then strconv.AppendInt(buf, i, 10)", ` +
 			`"caller EncodeJSON", "caller MarshalJSON"]`,
 		extract: func(repo string) (string, interface{}, error) {
 			fset, f, err := parseFile(repo, "martian/syntax/format_exp_json.go")
@@ -171,6 +173,14 @@ func init() {
 				return "", nil, fmt.Errorf("appendJSON has %d statements (expected: guarded return, return)", len(md.Body.List))
 			}
 			ifs, ok := md.Body.List[0].(*ast.IfStmt)
+			rangeGuard := ""
+			if ok && ifs.Init == nil && ifs.Else == nil && len(ifs.Body.List) == 1 {
+				// if <range check> { if init; cond { return ... } }
+				if inner, ok2 := ifs.Body.List[0].(*ast.IfStmt); ok2 {
+					rangeGuard = show(ifs.Cond)
+					ifs = inner
+				}
+			}
 			if !ok || ifs.Init == nil || ifs.Else != nil || len(ifs.Body.List) != 1 {
 				return "", nil, fmt.Errorf("appendJSON does not start with `if init; cond { return ... }`")
 			}
@@ -183,6 +193,9 @@ func init() {
 				return "", nil, fmt.Errorf("appendJSON does not end with return strconv.AppendFloat(...)")
 			}
 			items := []string{"init " + show(ifs.Init), "cond " + show(ifs.Cond), "then " + show(ret.Results[0])}
+			if rangeGuard != "" {
+				items = append([]string{"range " + rangeGuard}, items...)
+			}
 			for _, m := range []string{"EncodeJSON", "MarshalJSON"} {
 				fd := findMethod(f, "FloatExp", m)
 				if fd == nil {
